@@ -1161,7 +1161,7 @@ func (d *Data) ServeHTTP(uuid dvid.UUID, ctx *datastore.VersionedCtx, w http.Res
 
 	case "area":
 		// DELETE <api URL>/node/<UUID>/<data name>/area/<label>/<size>/<offset>
-		if len(parts) < 6 {
+		if len(parts) < 7 {
 			server.BadRequest(w, r, "DVID requires label ID, size, and offset to follow 'area' endpoint")
 			return
 		}
